@@ -194,6 +194,25 @@ def run(ctx):
                     if ng != count_groups(a):
                         ctx.counterexample('translate(%r) has %d capturing groups for %d extended groups' % (pattern, ng, count_groups(a)),
                                            {'pattern': pattern, 'flags': corr.flag_names(fv), 'regex': pos[0]})
+                # ... and the same holds for the exclusion regexes, whether the exclusion is given inline (`!p`, `-p`), through
+                # SPLIT, or as exclude=
+                if count_groups(a) and not pattern.startswith(('(', '!', '-')):
+                    star = '**' if glob_mode else '*'
+                    forms = [('inline !', dict(patterns=[star, '!' + pattern], flags=fv | api.NEGATE)),
+                             ('inline -', dict(patterns=[star, '-' + pattern], flags=fv | api.NEGATE | api.MINUSNEGATE)),
+                             ('exclude=', dict(patterns=star, flags=fv & ~(api.NEGATE | api.NEGATEALL), exclude=pattern))]
+                    for how, kw_ in forms:
+                        try:
+                            pos2, neg2 = api.translate(kw_['patterns'], flags=kw_['flags'], **({'exclude': kw_['exclude']} if 'exclude' in kw_ else {}))
+                            ng2 = [re.compile(r).groups for r in neg2]
+                        except Exception as e:
+                            continue
+                        evals += 1
+                        if ng2 != [count_groups(a)]:
+                            ctx.counterexample('translate(%r, %s): the exclusion regex of %r (%s) has %r capturing groups for %d extended groups' % (
+                                kw_['patterns'], corr.flag_names(kw_['flags']), pattern, how, ng2, count_groups(a)),
+                                {'patterns': kw_['patterns'], 'exclude': kw_.get('exclude'), 'flags': corr.flag_names(kw_['flags']), 'regexes': neg2})
+                            break
                 if count_groups(a):
                     nontriv.add((pattern, fv, glob_mode))
         if len(samples) < 3:
